@@ -13,6 +13,7 @@ ENGINES = {
     'key': ('harness.key_checks', ['C09', 'C10', 'C11', 'C17']),
     'valid': ('harness.valid_checks', ['C19']),
     'round': ('harness.round_checks', ['C12']),
+    'dict': ('harness.dict_checks', ['C03']),
 }
 
 
